@@ -54,6 +54,8 @@ def run(chk, repo, tier):
     chk.clause('C03-d', 'per segment the same slice indexes amplitude, mask and OPD and feeds the offset; index n selects mask and tilt slot', 8)
     chk.clause('C03-e', 'the slice cache is recomputed from the mask wherever the mask is assigned', 2)
     chk.clause('C03-f', 'the mask is a multiplicative factor of every segment phasor on every path', 4)
+    from .extra_rules import mask_support_rule
+    mask_support_rule(chk, repo, 'C03-f')
     chk.clause('C03-g', 'sub-array offsets reach the transform', 3)
     chk.clause('C03-i', 'the slice cache holds one bounding slice per (segment) mask', 2)
     chk.clause('C03-j', 'resampling treats the segment masks exactly like the global mask', 1)
